@@ -184,6 +184,8 @@ func VerifC18Upgrade() {
 func VerifC18Toggle() {
 	w := newLCWorld()
 	c, cons := freshClient("new")
+	// the two parts of a proposal are independent values: the consensus state may be of another type than the client state
+	cons.CType = clientKinds[rt.IntRange("new.consensusType", 0, 3)]
 	a, b := proposalAnys(c, cons)
 	_, err := w.k.HandleToggleClient(w.ctx, &types.ToggleClientProposal{Title: "t", Description: "d", ChainName: w.chain, ClientState: a, ConsensusState: b})
 	if w.old == nil || w.old.CType == c.CType {
@@ -195,6 +197,10 @@ func VerifC18Toggle() {
 	}
 	rt.Reach("toggled")
 	rt.Known("H2b-toggle-initialises-the-old-client", true)
+	if cons.CType != c.CType {
+		rt.Reach("toggled-with-a-consensus-state-of-another-type")
+		return // what such a pair installs is not specified by the property; that the client type changed is (L1 above)
+	}
 	w.installedIs(c, cons, "L2-toggle")
 }
 
